@@ -144,7 +144,7 @@ def good_value(o: J, layer_by: Dict[str, J], r: random.Random, depth: int = 0) -
         if k == "STD":
             nbytes = d["bits"] // 8
         elif k == "MINMAX":
-            nbytes = r.randrange(d["min"], (d.get("max") or d["min"] + 5) + 1)
+            nbytes = r.randrange(d["min"], (d.get("gen_max") or d.get("max") or d["min"] + 5) + 1)
         else:
             nbytes = r.choice([0, 1, 3, 5])
         if base == "A_BYTEFIELD":
@@ -319,6 +319,15 @@ def probe_layer() -> J:
     dobjs.append({"t": "SFIELD", "name": "sf_unb", "struct": "st_unb", "n": 2, "item_size": 6})
     rq("p_static_unbounded", [sid(), p_value("f", "sf_unb"), u8const("tail", 0x96)],
        "static-field-unbounded-items")
+    # ... and items without any slack: the string fills the item exactly, so that a PDU whose
+    # terminator is damaged makes the item run into its neighbour
+    tight = dop("mm2", dct_minmax("A_ASCIISTRING", 2, None, "ZERO"))
+    tight["dct"]["gen_max"] = 2  # (generator hint: longer strings cannot be represented here)
+    dobjs.append(tight)
+    dobjs.append(_struct("st_tight", [p_value("k", "u8"), p_value("s", "mm2")]))
+    dobjs.append({"t": "SFIELD", "name": "sf_tight", "struct": "st_tight", "n": 2, "item_size": 4})
+    rq("p_static_tight", [sid(), p_value("f", "sf_tight"), u8const("tail", 0x95)],
+       "static-field-items-without-slack")
     dobjs.append({"t": "EOPFIELD", "name": "eop_var", "struct": "st_var", "min": None, "max": None})
     rq("p_eop_var", [sid(), p_value("f", "eop_var")], "end-of-pdu-field-variable-items")
     # 3 dynamic length field
